@@ -251,7 +251,9 @@ def read_range_input(specification: str) -> List[float]:
         step = 0.005
         if len(parts) == 3:
             step = float(parts[2])
-        values = np.arange(min_value, max_value + step, step).tolist()
+        # Stop half a step past the maximum so that rounding in
+        # max_value + step can never add a value beyond the maximum.
+        values = np.arange(min_value, max_value + step/2, step).tolist()
     elif ',' in specification:
         values = [float(s) for s in specification.split(',')]
     else:
